@@ -583,6 +583,32 @@ func tlExactPending(s *Stream, rng *Rng, L, Q int) {
 			time.Sleep(100 * time.Microsecond)
 		}
 	}
+	if rng.Intn(2) == 0 {
+		// the other way to come to rest: the context is cancelled while the k tasks are still waiting.
+		// Afterwards the lane is at rest again, and what was accepted and never started is still pending.
+		cancel()
+		close(release)
+		if !waitLane(tl, r) {
+			s.Violate("wait-does-not-return", "Wait() did not return after cancel in the exact-pending scenario", sc)
+			return
+		}
+		starts, _, _, _ := r.snapshot()
+		notStarted := 0
+		for _, p := range pushes {
+			if p.err == nil && p.id < 9000 && starts[p.id] == 0 {
+				notStarted++
+			}
+		}
+		time.Sleep(time.Millisecond)
+		if p := tl.Status().PendingTask; p != notStarted {
+			s.Violate("pending-not-exact", fmt.Sprintf("at rest after cancel and Wait: %d accepted tasks were never started, PendingTask=%d (%s, then cancelled)", notStarted, p, sc.Detail), sc)
+		}
+		tlFinalChecks(s, sc, tl, r, pushes, ctx)
+		s.Evaluations++
+		s.Count(fmt.Sprintf("exact-after-cancel.L%d.Q%d", L, Q))
+		s.Nontrivial(fmt.Sprintf("exact-after-cancel/%d/%d/%d", L, Q, k))
+		return
+	}
 	close(release)
 	waitUntil(tlDeadline, func() bool { _, fin, _, _ := r.snapshot(); return fin == k+L })
 	if !waitUntil(2*time.Second, func() bool { return tl.Status().PendingTask == 0 }) {
@@ -1005,6 +1031,7 @@ func tlOddLifetimes(s *Stream, rng *Rng, L, Q int) {
 		s.Evaluations++
 		s.Nontrivial(fmt.Sprintf("deadline-cancelled-early/%d/%d", L, Q))
 	}
+	tlPanicAfterCancel(s, rng, L, Q)
 	// (c)
 	{
 		sc := tlScenario{Kind: "goexit-task", L: L, Q: Q}
@@ -1190,6 +1217,33 @@ func tlAfterPanics(s *Stream, rng *Rng, L int) {
 	s.Nontrivial(fmt.Sprintf("after-panics/%d", L))
 }
 
+// tlPanicAfterCancel: a task that is still running when the context is cancelled panics afterwards: it is a
+// panic that occurred, contained like any other, and the only candidate for LastPanic.
+func tlPanicAfterCancel(s *Stream, rng *Rng, L, Q int) {
+	sc := tlScenario{Kind: "panic-after-cancel", L: L, Q: Q}
+	ctx, cancel := context.WithCancel(context.Background())
+	tl := tasklane.New(ctx, L, Q)
+	tl.SetTimeout(tlDeadline)
+	r := newTLRun()
+	release := make(chan struct{})
+	pv := tlPanicValue(rng, 77)
+	t := &tlTask{id: 1, r: r, block: release, pv: pv}
+	err := tl.PushTask(t, 0)
+	waitUntil(tlDeadline, func() bool { return r.isStarted(1) })
+	cancel()
+	time.Sleep(time.Millisecond)
+	close(release)
+	tlFinalChecks(s, sc, tl, r, []tlPush{{1, 0, err}}, ctx)
+	if err == nil {
+		ok := waitUntil(2*time.Second, func() bool { return reflect.DeepEqual(tl.Status().LastPanic, pv) })
+		if !ok {
+			s.Violate("last-panic", fmt.Sprintf("a task running at cancel time panicked with %#v afterwards (the only panic of this lane); LastPanic = %#v", pv, tl.Status().LastPanic), sc)
+		}
+	}
+	s.Evaluations++
+	s.Nontrivial(fmt.Sprintf("panic-after-cancel/%d/%d", L, Q))
+}
+
 // ---- scenario: many goroutines enter Wait() at the same moment, round after round (C07) ----------
 
 func tlManyWaiters(s *Stream, rng *Rng, L, Q, rounds int) {
@@ -1282,6 +1336,7 @@ func runTL(cfg Cfg, name string) {
 						break
 					}
 					tlExactPending(s, rng.Fork(), L, Q)
+					tlPanicAfterCancel(s, rng.Fork(), L, Q)
 				}
 			}
 		}
